@@ -242,10 +242,138 @@ def build_T4c(tree):
     return '\n\n'.join([t1, t2] + out), span_sha([calls[0]]) + hashlib.sha256(txt.encode()).hexdigest()[:8]
 
 
+def _sql_text(node, env):
+    """the SQL string an `execute`/`executemany` call is handed: a literal / f-string, or a local name assigned one earlier"""
+    if isinstance(node, ast.Name) and node.id in env:
+        return env[node.id]
+    if isinstance(node, (ast.Constant, ast.JoinedStr)):
+        return ' '.join(ast.unparse(node).split())
+    raise Unsupported('SQL text of a temporary-table statement is not a literal: ' + ast.unparse(node)[:60])
+
+
+def _temp_table_ops(stmts, guard=None, env=None, ops=None):
+    """the SQL statements of a block of `_generate_temp_tables`, in source order, as (operation, flag) pairs"""
+    env = {} if env is None else env
+    ops = [] if ops is None else ops
+    for st in stmts:
+        if isinstance(st, ast.Assign) and len(st.targets) == 1 and isinstance(st.targets[0], ast.Name):
+            name = st.targets[0].id
+            v = st.value
+            if isinstance(v, (ast.Constant, ast.JoinedStr)) or (isinstance(v, ast.Call) and _norm(v.func).endswith('.join')):
+                env[name] = ' '.join(ast.unparse(v).split())
+                continue
+            if _norm(v) == 'next(self._db_con.execute(query))[0]' and 'FROM sqlite_master' in env.get('query', '') \
+                    and 'COUNT(*)' in env['query'] and "name = '{tdef.table_name}'" in env['query']:
+                env['__probe__'] = name         # number of tables of that name
+                continue
+            raise Unsupported('temporary tables: assignment outside the fragment: ' + ast.unparse(st)[:80])
+        if isinstance(st, ast.If):
+            if st.orelse or _norm(st.test) != env.get('__probe__', '?') + '>0':
+                raise Unsupported('temporary tables: conditional outside the fragment: ' + ast.unparse(st.test)[:80])
+            _temp_table_ops(st.body, guard='exists', env=env, ops=ops)
+            continue
+        if isinstance(st, ast.With):
+            if len(st.items) != 1 or _norm(st.items[0].context_expr) != 'self._db_con' or st.items[0].optional_vars is not None:
+                raise Unsupported('temporary tables: `with` other than `with self._db_con:`')
+            _temp_table_ops(st.body, guard=guard, env=env, ops=ops)
+            continue
+        if isinstance(st, ast.Expr) and isinstance(st.value, ast.Call) and _norm(st.value.func) in ('self._db_con.execute', 'self._db_con.executemany'):
+            call = st.value
+            many = _norm(call.func).endswith('executemany')
+            sql = _sql_text(call.args[0], env)
+            body = sql.strip('f').strip('\'"')
+            up = ' '.join(body.upper().split())
+            if '{TDEF.TABLE_NAME}' not in up:
+                raise Unsupported('temporary tables: statement on another table: ' + sql[:80])
+            if many:
+                if len(call.args) != 2 or _norm(call.args[1]) != 'tdef.column_data':
+                    raise Unsupported('temporary tables: executemany no longer inserts tdef.column_data')
+                if up.startswith('INSERT OR REPLACE INTO'):
+                    ops.append(('insert', True))
+                elif up.startswith('INSERT INTO'):
+                    ops.append(('insert', False))
+                else:
+                    raise Unsupported('temporary tables: executemany statement outside the fragment: ' + sql[:80])
+                if guard:
+                    raise Unsupported('temporary tables: conditional insert')
+            elif up.startswith('DROP TABLE IF EXISTS'):
+                ops.append(('drop-if-exists', False))
+            elif up.startswith('DROP TABLE'):
+                ops.append(('drop-if-exists', False) if guard == 'exists' else ('drop', False))
+            elif up.startswith('CREATE TABLE IF NOT EXISTS'):
+                ops.append(('create', True))
+            elif up.startswith('CREATE TABLE'):
+                ops.append(('create', False))
+            else:
+                raise Unsupported('temporary tables: statement outside the fragment: ' + sql[:80])
+            if not many and guard and not up.startswith('DROP TABLE'):
+                raise Unsupported('temporary tables: conditional statement other than DROP')
+            continue
+        raise Unsupported('temporary tables: statement outside the fragment: ' + ast.unparse(st)[:80])
+    return ops
+
+
+def build_T4t(tree):
+    """`_Image._generate_temp_tables` (context manager around every read that joins the frame table with a channel table): the SQL
+    statements issued per table BEFORE control goes to the `with` body and AFTER it, as programs for the model's small SQLite
+    interpreter (`Tiling.tempOp`), and whether the clean-up also runs when the body raises (`try/finally` around the `yield`)."""
+    fn = find_func(tree, '_Image._generate_temp_tables')
+    body = strip_doc(fn.body)
+    if [a.arg for a in fn.args.args] != ['self', 'table_defs']:
+        raise Unsupported('_generate_temp_tables: parameters changed')
+    on_error = False
+    if len(body) == 2 and isinstance(body[1], ast.Try):
+        # for ...: set-up ; try: yield finally: clean-up
+        t = body[1]
+        if t.handlers or t.orelse or len(t.body) != 1:
+            raise Unsupported('_generate_temp_tables: try statement outside the fragment')
+        body = [body[0], t.body[0]] + list(t.finalbody)
+        on_error = True
+    if len(body) != 3 or not isinstance(body[0], ast.For) or not isinstance(body[2], ast.For) \
+            or not (isinstance(body[1], ast.Expr) and isinstance(body[1].value, ast.Yield) and body[1].value.value is None):
+        raise Unsupported('_generate_temp_tables: shape `for tdef: set-up; yield; for tdef: clean-up` changed')
+    for loop in (body[0], body[2]):
+        if _norm(loop.target) != 'tdef' or _norm(loop.iter) != 'table_defs' or loop.orelse:
+            raise Unsupported('_generate_temp_tables: loops no longer run over table_defs')
+    setup = _temp_table_ops(body[0].body)
+    cleanup = _temp_table_ops(body[2].body)
+    if not setup or not cleanup:
+        raise Unsupported('_generate_temp_tables: empty set-up or clean-up program')
+    # who uses it: the tiled-region iterator wraps its count test and its `yield` in this context
+    it = find_func(tree, '_Image._iterate_indices_for_tiled_region')
+    withs = [n for n in ast.walk(it) if isinstance(n, ast.With) and _norm(n.items[0].context_expr) == 'self._generate_temp_tables(channel_table_defs)']
+    if len(withs) != 1 or not any(isinstance(n, ast.Yield) for n in ast.walk(withs[0])):
+        raise Unsupported('_iterate_indices_for_tiled_region no longer yields inside `with self._generate_temp_tables(channel_table_defs)`')
+    if any(isinstance(n, ast.Try) for n in ast.walk(it)):
+        raise Unsupported('_iterate_indices_for_tiled_region: try statement (not modelled)')
+    # the channel table: first column OutputChannelIndex UNIQUE, joined on the query columns
+    pct = find_func(tree, '_Image._prepare_channel_tables')
+    ptxt = ''.join(ast.unparse(pct).split())
+    for needle in ("channel_table_name=f'TemporaryChannelTable{i}'", "['OutputChannelIndexINTEGERUNIQUENOTNULL']+",
+                   "channel_column_data=list(zip(output_channel_indices,*channel_indices_dict.values()))",
+                   "output_channel_indices=range(num_channels)", "output_channel_indices=np.asarray(remap_channel_indices[i]).tolist()",
+                   "join_lines.append(f'INNERJOIN{channel_table_name}ON{channel_join_condition}')",
+                   "selection_lines.append(f'{channel_table_name}.OutputChannelIndex')"):
+        if needle not in ptxt:
+            raise Unsupported('_prepare_channel_tables changed (missing ' + needle + ')')
+    code = {'drop-if-exists': 0, 'drop': 1, 'create': 2, 'insert': 3}
+    fmt = lambda ops: '[' + ', '.join(f'({code[o]}, {"true" if f else "false"})' for o, f in ops) + ']'   # noqa: E731
+    text = ("/-- `_Image._generate_temp_tables`: SQL statements per temporary table before the `with` body runs, as (operation, flag): "
+            "0 = DROP TABLE if the table exists, 1 = DROP TABLE, 2 = CREATE TABLE (flag: IF NOT EXISTS), 3 = INSERT of all rows of "
+            "`column_data` (flag: OR REPLACE).  Today: " + ', '.join(o + ('*' if f else '') for o, f in setup) + " -/\n"
+            f"def tempTableSetup : List (Nat × Bool) := {fmt(setup)}\n\n"
+            "/-- … and after the body has finished normally.  Today: " + ', '.join(o + ('*' if f else '') for o, f in cleanup) + " -/\n"
+            f"def tempTableCleanup : List (Nat × Bool) := {fmt(cleanup)}\n\n"
+            "/-- is the clean-up also run when the body raises (`try … finally` around the `yield`)? -/\n"
+            f"def tempTableCleanupOnError : Bool := {'true' if on_error else 'false'}")
+    return text, span_sha(body) + hashlib.sha256(ptxt.encode()).hexdigest()[:8]
+
+
 TARGETS = {
     'T6': {'file': 'spatial.py', 'build': build_T6},
     'T4o': {'file': 'seg/sop.py', 'build': build_T4o, 'imports': ['HdVerif.Model.Round']},
     'T5w': {'file': 'image.py', 'build': build_T5w},
     'T5g': {'file': 'image.py', 'build': build_T5g},
     'T4c': {'file': 'seg/sop.py', 'build': build_T4c},
+    'T4t': {'file': 'image.py', 'build': build_T4t},
 }
